@@ -280,6 +280,16 @@ def gen_cases(ctx, scale=1.0):
                 c["read_cap"] = cap
                 c["ops"] = [{"op": "down", "offset": 0, "read": 8192, "api": "iter"}, {"op": "down", "offset": min(2, max(n, 0)), "read": 5, "api": "readall"}]
                 cases.append(c)
+    # a sender that pauses in the middle of the data, shorter and longer than the server's socket_timeout: whenever the
+    # completion reply is sent, the stored bytes are the bytes sent
+    for backend in ("memory", "pathio"):
+        for pause in (1.0, 3.0):
+            for verb in ("STOR", "APPE"):
+                c = det_case(rng, 64, 200, verb)
+                c["backend"] = backend
+                c["socket_timeout"] = 2.0
+                c["ops"][0].update({"writes": [70, 70, 60], "stall": [1, pause]})
+                cases.append(c)
     # a second session looks at the file (MLST) in the middle of the transfer
     for backend in ("memory", "pathio"):
         for bs in (2, 7, 64):
@@ -421,6 +431,8 @@ async def _run_case(loop, case):
     if th.get("user_write_pc"):
         limits["write_speed_limit_per_connection"] = th["user_write_pc"]
     kw = {"block_size": bs}
+    if case.get("socket_timeout") is not None:
+        kw["socket_timeout"] = case["socket_timeout"]
     if th.get("srv_read"):
         kw["read_speed_limit"] = th["srv_read"]
     if th.get("srv_write"):
@@ -560,11 +572,13 @@ async def _do_op(a, op, path, o, bystander=None):
         mk = a.upload_stream if op["verb"] == "STOR" else a.append_stream
         async with mk(path, offset=op["offset"]) as stream:
             i = 0
-            for n in op["writes"]:
+            for wi, n in enumerate(op["writes"]):
                 await stream.write(payload[i : i + n])
                 i += n
                 if i:
                     await look()
+                if op.get("stall") and op["stall"][0] == wi:
+                    await asyncio.sleep(op["stall"][1])  # the sender pauses in the middle of the data
             if i < len(payload):
                 await stream.write(payload[i:])
     else:
@@ -710,6 +724,8 @@ def oracle(case, obs):
                 if post is not None:
                     fail(i, "C01:refused-upload-left-a-file", "upload answered %s but a file of %d bytes exists" % (st, len(post)))
                 continue
+            if st != "226" and op.get("stall"):
+                continue  # a sender that pauses longer than the server's socket_timeout is given up (C16): no completion reply, no claim
             if st != "226":
                 fail(i, "C01:upload-not-completed", "%s offset %d of %d bytes answered %s" % (op["verb"], k, len(payload), st))
                 continue
@@ -890,7 +906,7 @@ def _run(ctx, cases, compare=True, stop_after_failures=None):
             res.count("status=" + o["status"])
             if not trivial(case, op, o):
                 res.distinct.add(distinct_key(case, op, o))
-        if compare and not case.get("read_cap"):  # the model's backend returns whole blocks; short reads are judged by the oracle alone
+        if compare and not case.get("read_cap") and case.get("socket_timeout") is None:  # (short reads and stalled senders are judged by the oracle alone)
             for line, kind, i in model_lines(case, obs):
                 pending.append((line, kind, case, i, obs[i]))
         if len(res.samples) < 6 and res.cases % 37 == 1:
